@@ -25,8 +25,10 @@ def decl_specs(tier):
     specs = []
     for names, w in alphabet.declarations(tier, comps=comps):
         specs.append({'names': list(names), 'wrapper': w})
-    for s in c01.decl_specs('quick')[-200:]:
-        if s.get('opts') and not (set(s['names']) & EXCLUDED):
+    later = [repr(x) for x in alphabet.families() + alphabet.boundary_specs() + alphabet.structure_specs()]
+    for s in c01.decl_specs('quick'):
+        # every declaration with class options of the parse check (byte order, alignment, search window incl. 0 = unlimited)
+        if s.get('opts') and not (set(s['names']) & EXCLUDED) and repr(s) not in later:
             specs.append(s)
     for c in ('i1', 'i3', 'dn', 'm0', 'b35', 'sn', 'su', 'sr', 'o1', 'r1', 'rs', 'sdn'):
         specs.append({'names': [c], 'wrapper': 'd'})
